@@ -584,6 +584,25 @@ class Gen:
                             self.do({"op": "unzip", "a": self.last()})
                             if self.m.regs[self.last()] is not DEAD:
                                 made.append(self.last())
+            # arrays of arrays: the same inner size under different outer sizes (2 x k against 3 x k), and the reverse
+            k_in = rng.choice([2, 3])
+            row_src = self.new_input("SecretInteger")
+            self.do({"op": "arrayOf", "r": row_src, "size": k_in})
+            row = self.last()
+            row_src2 = self.new_input("SecretInteger")
+            self.do({"op": "arrayOf", "r": row_src2, "size": k_in + 1})
+            row_b = self.last()
+            nested = {}
+            for tag, rows in (("2xk", [row, row]), ("3xk", [row, row, row]), ("2xk'", [row_b, row_b])):
+                self.do({"op": "arrayNew", "xs": rows})
+                if self.m.regs[self.last()] is not DEAD:
+                    nested[tag] = self.last()
+            for x, y in (("2xk", "3xk"), ("3xk", "2xk"), ("2xk", "2xk'"), ("2xk", "2xk")):
+                if x in nested and y in nested:
+                    self.do({"op": "zip", "a": nested[x], "b": nested[y]})
+                    if self.m.regs[self.last()] is not DEAD:
+                        made.insert(0, self.last())
+            self.compile_now(prefer=made[:4])
             rng.shuffle(made)
             self.compile_now(prefer=made[:4])
             self.compile_now(prefer=made[4:8])
@@ -621,6 +640,14 @@ class Gen:
                 self.do({"op": "arrayNew", "xs": xs})
                 if self.m.regs[self.last()] is not DEAD:
                     made.append(self.last())
+            # an array of exactly one element that is itself a sequence-like value (an n-tuple of same-typed members, a one-row
+            # array, an object): one element, of that compound type — and read back
+            self.do({"op": "objectNew", "fs": [["only", t1]]})
+            single_obj = self.last()
+            for one in (pair, triple, single_obj, a2):
+                self.do({"op": "arrayNew", "xs": [one]})
+                if self.m.regs[self.last()] is not DEAD:
+                    made.insert(0, self.last())
             self.do({"op": "objectNew", "fs": [["x", t1], ["y", t2]]})
             o2 = self.last()
             self.do({"op": "objectNew", "fs": [["x", t1], ["y", t2], ["z", t3]]})
